@@ -582,7 +582,7 @@ fn encode_check<T: Pixel>(ci: usize, (m, full, n): (MC, bool, u8), px: &[[f32; 3
 pub fn c02(ctx: &Ctx) {
     let cfgs = configs();
     let per_cfg: Mutex<Vec<J>> = Mutex::new(Vec::new());
-    let count: usize = ctx.arg_u64("pixels").unwrap_or(if ctx.flag("lite") { 1 << 14 } else { ctx.pick(1 << 17, 1 << 22) }) as usize;
+    let count: usize = ctx.arg_u64("pixels").unwrap_or(if ctx.flag("lite") { 1 << 14 } else { ctx.pick(1 << 19, 1 << 22) }) as usize;
     let distinct = Distinct::new(ctx.pick(27, 31));
     let evals = AtomicU64::new(0);
     let tot = Mutex::new(([0u64; 12], [0u64; 3], [0u64; 3], [0u64; 3], [0u64; 6]));
@@ -747,6 +747,57 @@ pub fn c16(ctx: &Ctx) {
         }
         worst_spread.lock().unwrap().merge(&ws);
     });
+    // the matrices that are derived from the primaries ("for every matrix"): every (matrix, primaries) pair that decodes
+    {
+        let derived = [MC::Identity, MC::BT2020ConstantLuminance, MC::ChromaticityDerivedConstantLuminance, MC::ST2085, MC::ICtCp, MC::ChromaticityDerivedNonConstantLuminance, MC::Reserved];
+        let mut dcfgs = Vec::new();
+        for m in derived {
+            for p in ALL_CP {
+                for full in [false, true] {
+                    for n in [8u8, 10, 12, 16] {
+                        dcfgs.push((m, p, full, n));
+                    }
+                }
+            }
+        }
+        let wd = Mutex::new(Worst::<(MC, CP, bool, u8, u32, [f32; 3])>::new());
+        let decoded = AtomicU64::new(0);
+        ev::par_ranges("C16", dcfgs.len() as u64, 4, |_w, a, b| {
+            for i in a..b {
+                let (m, p, full, n) = dcfgs[i as usize];
+                let k = 1u32 << (n - 8);
+                let mid = 1u32 << (n - 1);
+                let tri: Vec<[u32; 3]> = (0..(1u32 << n)).map(|y| [y, mid, mid]).collect();
+                let cfg = cfg_full(m, TC::BT1886, p, full, n, (0, 0));
+                let yuv: Yuv<u16> = mk_yuv(&tri, cfg);
+                let Ok(rgb) = Rgb::try_from(&yuv) else { continue }; // unsupported pairs are C14's business
+                decoded.fetch_add(1, Relaxed);
+                evals.fetch_add(tri.len() as u64, Relaxed);
+                let mut w = Worst::new();
+                for (y, q) in rgb.data().iter().enumerate() {
+                    let sp = if q.iter().any(|v| v.is_nan()) { f64::NAN } else { (q[0].max(q[1]).max(q[2]) - q[0].min(q[1]).min(q[2])) as f64 };
+                    w.upd(sp, (m, p, full, n, y as u32, *q));
+                }
+                let black = rgb.data()[if full { 0 } else { 16 * k } as usize];
+                let white = rgb.data()[if full { (1u32 << n) - 1 } else { 235 * k } as usize];
+                let case = |y: u32| J::obj().set("kind", "grey-decode-derived").set("matrix", format!("{m:?}")).set("primaries", format!("{p:?}")).set("full", full).set("n", n).set("yuv", [y, mid, mid]);
+                if black.iter().any(|v| *v != 0.0) {
+                    ev::violation(format!("C16|black-not-zero|{m:?}|{p:?}"), format!("nominal black decodes to {black:?}"), case(0));
+                }
+                if !white.iter().all(|v| (*v as f64 - 1.0).abs() <= 1e-6) {
+                    ev::violation(format!("C16|white-not-one|{m:?}|{p:?}"), format!("nominal white decodes to {white:?}"), case(1));
+                }
+                if !(w.err <= 5e-7) {
+                    if let Some((_, _, _, _, y, q)) = w.at {
+                        ev::violation(format!("C16|grey-spread|{m:?}|{p:?}"), format!("grey code {y} decodes to {q:?}: spread {:.3e} > 5e-7 ({} range, {n} bit)", w.err, if full { "full" } else { "limited" }), case(y));
+                    }
+                }
+                wd.lock().unwrap().merge(&w);
+            }
+        });
+        ev::observe("derived_matrix_configs_decoded", decoded.load(Relaxed));
+        ev::observe("derived_matrix_grey_worst_spread", wd.lock().unwrap().err);
+    }
     let ws = worst_spread.lock().unwrap();
     ev::observe("yuv_grey_worst_spread", ws.err);
     if let Some((ci, y, p)) = ws.at {
